@@ -3,6 +3,7 @@
 package malx
 
 import (
+	"archive/zip"
 	"bytes"
 	"encoding/binary"
 	"encoding/json"
@@ -436,6 +437,125 @@ func Run(args []string) {
 			}
 		}
 		os.Remove(in)
+	}
+	// degenerate lines inside the signature block of the script-family formats (# ..., <!-- ... -->, /* ... */)
+	for _, tn := range []string{"ps1", "ps1xml", "mof"} {
+		ti := pipelinex.TypeByName(tn)
+		ext := filepath.Ext(ti.Fixture)
+		in := filepath.Join(dir, "sigblock"+ext)
+		src, _ := os.ReadFile(pipelinex.Pkgs + ti.Fixture)
+		os.WriteFile(in, src, 0600)
+		if _, err := pipex.Sign(pipex.SignRequest{Cfg: w.Cfg, Token: w.Token, KeyName: "rsa2048", SigType: ti.SigType, In: in, Out: in, Digest: "sha256"}); err != nil {
+			os.Remove(in)
+			continue
+		}
+		signed, _ := os.ReadFile(in)
+		os.Remove(in)
+		lines := bytes.SplitAfter(signed, []byte("\r\n"))
+		begin := -1
+		for i, l := range lines {
+			if bytes.Contains(l, []byte("SIG # Begin signature block")) {
+				begin = i
+			}
+		}
+		if begin < 0 || begin+3 >= len(lines) {
+			continue
+		}
+		start, end := "# ", ""
+		switch tn {
+		case "ps1xml":
+			start, end = "<!-- ", " -->"
+		case "mof":
+			start, end = "/* ", " */"
+		}
+		variants := map[string]func([][]byte) [][]byte{
+			"delimiters-only": func(l [][]byte) [][]byte { l[begin+2] = []byte(strings.TrimRight(start, " ") + end + "\r\n"); return l },
+			"delimiters-overlap": func(l [][]byte) [][]byte {
+				l[begin+2] = []byte(strings.TrimRight(start, " ") + " " + strings.TrimLeft(end, " ") + "\r\n")
+				return l
+			},
+			"no-end-delimiter": func(l [][]byte) [][]byte {
+				l[begin+2] = bytes.TrimSuffix(bytes.TrimSuffix(l[begin+2], []byte("\r\n")), []byte(end))
+				l[begin+2] = append(l[begin+2], '\r', '\n')
+				return l
+			},
+			"bad-base64": func(l [][]byte) [][]byte { l[begin+2] = []byte(start + "!!!not base64!!!" + end + "\r\n"); return l },
+			"begin-twice": func(l [][]byte) [][]byte {
+				return append(append(append([][]byte{}, l[:begin+2]...), l[begin]), l[begin+2:]...)
+			},
+			"no-end-marker": func(l [][]byte) [][]byte { return l[:len(l)-2] },
+			"empty-block":   func(l [][]byte) [][]byte { return append(append([][]byte{}, l[:begin+1]...), l[len(l)-1]) },
+		}
+		for name, fn := range variants {
+			cp := make([][]byte, len(lines))
+			for i := range lines {
+				cp[i] = append([]byte(nil), lines[i]...)
+			}
+			d := bytes.Join(fn(cp), nil)
+			for _, entry := range []string{"verify", "probe", "server"} {
+				n++
+				p := filepath.Join(dir, fmt.Sprintf("sigblock-%d%s", n, ext))
+				os.WriteFile(p, d, 0600)
+				cases = append(cases, &caseT{Type: tn, Signed: true, Format: "text", Field: "signature block line", Class: name, Entry: entry, path: p})
+			}
+		}
+	}
+	// appx packages whose own metadata is inconsistent: a member without a file extension that [Content_Types].xml does
+	// not mention (listed in the block map, as the package's maker would have); a block map that lists more blocks
+	// for a file than the file has
+	{
+		ti := pipelinex.TypeByName("appx")
+		src, _ := os.ReadFile(pipelinex.Pkgs + ti.Fixture)
+		rebuild := func(extra bool, editBlockMap func(string) string) []byte {
+			zr, err := zip.NewReader(bytes.NewReader(src), int64(len(src)))
+			if err != nil {
+				return nil
+			}
+			var buf bytes.Buffer
+			zw := zip.NewWriter(&buf)
+			if extra { // payload members come before the package's metadata members: the new one goes first
+				wr, _ := zw.CreateHeader(&zip.FileHeader{Name: "LICENSE", Method: zip.Deflate})
+				wr.Write([]byte("a member without an extension\n"))
+			}
+			for _, f := range zr.File {
+				if f.Name == "AppxSignature.p7x" || f.Name == "AppxMetadata/CodeIntegrity.cat" {
+					continue
+				}
+				rc, _ := f.Open()
+				b, _ := io.ReadAll(rc)
+				rc.Close()
+				if f.Name == "AppxBlockMap.xml" {
+					b = []byte(editBlockMap(string(b)))
+				}
+				wr, _ := zw.CreateHeader(&zip.FileHeader{Name: f.Name, Method: f.Method})
+				wr.Write(b)
+			}
+			zw.Close()
+			return buf.Bytes()
+		}
+		crafted := map[string][]byte{
+			"member without extension/no-content-type": rebuild(true, func(x string) string {
+				return strings.Replace(x, "<File ", `<File Name="LICENSE" Size="30" LfhSize="37"><Block Hash="AAAA"/></File><File `, 1)
+			}),
+			"block map/extra-block": rebuild(false, func(x string) string {
+				return strings.Replace(x, "</File>", `<Block Hash="AAAA" Size="1"/><Block Hash="AAAA" Size="1"/></File>`, 1)
+			}),
+			"block map/extra-file": rebuild(false, func(x string) string {
+				return strings.Replace(x, "</BlockMap>", `<File Name="ghost.bin" Size="1" LfhSize="39"><Block Hash="AAAA"/></File></BlockMap>`, 1)
+			}),
+		}
+		for name, data := range crafted {
+			if data == nil {
+				continue
+			}
+			parts := strings.SplitN(name, "/", 2)
+			for _, entry := range []string{"server", "transform", "verify"} {
+				n++
+				p := filepath.Join(dir, fmt.Sprintf("crafted-%d.appx", n))
+				os.WriteFile(p, data, 0600)
+				cases = append(cases, &caseT{Type: "appx", Signed: false, Format: "zip", Field: parts[0], Class: parts[1], Entry: entry, path: p})
+			}
+		}
 	}
 	// run
 	jobs := make(chan *caseT)
